@@ -153,4 +153,17 @@ example : ∃ S, makeGraphFromSpec
     refine ⟨[3, 4], rfl, by simp, ?_, by simp⟩
     intro d hd; simp at hd; omega
 
+/-- non-vacuity: the words `gnm 4 2` and `gnd 4 2` with draws of networkx on which the runs return -/
+example : ∃ S, makeGraphFromSpec
+      ⟨fun t => if t = "4" then ⟨some 4, some (4, 1)⟩ else ⟨some 2, some (2, 1)⟩,
+        nxExt .gnm [⟨some 4, some (4, 1)⟩, ⟨some 2, some (2, 1)⟩] [.choice 0, .choice 0, .choice 1, .choice 2, .choice 3, .choice 0],
+        .ok (), fun _ => .stuck, 0, true⟩
+      "simple" ["gnm", "4", "2"] [] = .ok (.simple S, none) [] := ⟨_, rfl⟩
+
+example : ∃ S, makeGraphFromSpec
+      ⟨fun t => if t = "4" then ⟨some 4, some (4, 1)⟩ else ⟨some 2, some (2, 1)⟩,
+        nxExt .gnd [⟨some 4, some (4, 1)⟩, ⟨some 2, some (2, 1)⟩] [.shuffle [0, 1, 2, 3, 0, 1, 2, 3] [0, 1, 1, 2, 2, 3, 3, 0]],
+        .ok (), fun _ => .stuck, 0, true⟩
+      "simple" ["gnd", "4", "2"] [] = .ok (.simple S, none) [] := ⟨_, rfl⟩
+
 end Cnfgen.C15
